@@ -214,6 +214,12 @@ class ExprMixin:
                 break
             # instances whose resolved method is the one defined in c
             subs = [k for k in self.w.subclasses(c) if (self.w.find_method(k, attr) or (None,))[0] == c]
+            if attr == '__call__':
+                # user-defined check classes define their own __call__ (3 or 4 parameters): they never resolve to an
+                # inherited one
+                subs = [k for k in subs if not k.startswith('$Custom')]
+            if not subs:
+                continue
             cond = z3.And(V.is_obj(o), z3.Or([clsof(V.ref(o)) == self.cid(k) for k in subs]))
             a, rest = self.split(rest, cond, strong=True)
             if a is not None:
